@@ -1,12 +1,1035 @@
-//! C02 — (stub: no ops yet)
+//! C02 — `Scorer::score` (candidate selection by preliminary count, top-k trimming, ranking, chimeric loop)
+//!
+//!   tol   := 0 u32(lo) u32(hi)  (ppm)  |  1 u32(lo) u32(hi)  (Da)
+//!   pep   := h:seq [n u32 mod…] opt(u32 nterm) opt(u32 cterm) u32(monoisotopic) decoy(0/1)
+//!   peak  := u32(mass) u32(intensity)         (mass = m/z − PROTON: a ProcessedSpectrum<Peak> is built directly)
+//!
+//!   search [k kind…] min_ion_index bucket [p pep…]  tol(fragment) tol(precursor) opt(max_fragment_charge)
+//!          min_isotope_err max_isotope_err min_precursor_charge max_precursor_charge override_precursor_charge
+//!          chimera wide_window report_psms min_matched_peaks
+//!          u32(precursor m/z) opt(precursor charge) opt(tol isolation window) [n peak…]
+//!      ->  [f psm…] in reported order  |  panic
+//!   psm   := pep_ix charge rank u32(isotope_error) matched_peaks scored_candidates u64(hyperscore)
+//!            u64(delta_next) u64(delta_best) label
+//!
+//! kind: 0=a 1=b 2=c 3=x 4=y 5=z. The database contains exactly the given peptides in the given order
+//! (`Parameters::build_from_peptides`; ascending monoisotopic mass as `Parameters::build` guarantees),
+//! score type SageHyperScore, no fragment annotation.
 use super::Info;
-use crate::proto::{Case, Rng, Tier, Toks};
+use crate::proto::{Case, Out, Rng, Tier, Toks};
+use sage_core::database::{EnzymeBuilder, Parameters};
+use sage_core::enzyme::Position;
+use sage_core::ion_series::{IonSeries, Kind};
+use sage_core::mass::{monoisotopic, Tolerance, H2O, NEUTRON, PROTON, VALID_AA};
+use sage_core::peptide::Peptide;
+use sage_core::scoring::{Feature, ScoreType, Scorer};
+use sage_core::spectrum::{Peak, Precursor, ProcessedSpectrum};
+use std::sync::Arc;
 
-pub const OPS: &[&str] = &[];
-pub const INFO: Info = Info { rule: "", serial: false };
+pub const OPS: &[&str] = &["search"];
+pub const INFO: Info = Info {
+    rule: "search: (a) small databases of 1-12 synthetic peptides (length 3..16 over VALID_AA, some modified, isobaric \
+           permutations and I/L twins, targets and decoys, ascending mass); (b) large databases of 60-220 near-isobaric \
+           peptides (common prefix/suffix + permuted middle + I/L twins) so that far more than 50 candidates get \
+           preliminary matches and trim_hits really cuts, with many ties in the preliminary count at the boundary; \
+           (c) directed: 0/1-peptide databases, the lightest peptide (index 0) as the answer, empty spectrum, empty charge \
+           range, inverted isotope range, candidate counts 49/50/51/52/100/101 with report_psms 1/25/26/30 \
+           (k = max(50, 2r) boundary), report_psms 0; PLANTED boundary cases: in a database of 120-200 permutations of \
+           one residue multiset (min_ion_index 2, dense noise so that nearly every peptide has preliminary matches) the \
+           generator computes every preliminary count itself and gives the candidate that is exactly the LAST RETAINED \
+           (position K) or the FIRST DROPPED (position K+1, K = max(50, 2 report_psms)) in the derived PreScore order \
+           four very intense peaks on its b1, b2, y1, y2 ions (not indexed, so no count changes): it is the best full \
+           score and must be reported first / must not be reported; two thirds of them with the database thinned so \
+           that the count boundary is strict (exactly K candidates with count >= c), the rest with a count tie across \
+           the boundary (decided by peptide index); multi-window-trim: charge absent x isotope range x 6000 Da open \
+           search on a large database (all three levels of trimming cut). Spectra are built from the ladders (b/y, sometimes other kinds) of 1-3 \
+           database peptides at fragment charge 1-3: each ion kept with probability 0.3-1.0, displaced by {0, +-0.5, \
+           +-0.9, +-1.1, +-2} tolerance widths, intensity from {1, 2.5, 10, 100} or uniform in [1,1000), plus 0-40 \
+           noise peaks. Precursor m/z from the first ladder peptide: charge 1-4 annotated or absent, isotope offset \
+           inside/outside the configured range, ppm jitter; precursor tolerance narrow (10/50 ppm, 0.3 Da) or open \
+           (50/500/6000 Da); fragment tolerance ppm or Da; isotope ranges (0,0) (-1,3) (0,1) (1,1) (-1,0) (2,0); \
+           charge ranges (2,4) (2,3) (1,4) (3,3) (4,2); override_precursor_charge; wide_window with/without isolation \
+           window; chimera on/off; report_psms 0..5, 26, 30; min_matched_peaks {0,1,2,4,6}; max_fragment_charge \
+           None/1/2/3; min_ion_index 0..2; bucket size {1,3,64,8192}. All intensities are >= 1 (hyperscores \
+           positive) except in the small stream tagged negative-hyperscore (one b + one y peak of intensity 0.01, \
+           min_matched_peaks 2), which exhibits the known delta_next defect. Tags are computed from the real reply. \
+           non-trivial = at least one PSM is reported and at least one scored candidate is not reported (cut by \
+           trimming, filtered, or outranked); distinct by request line",
+    serial: false,
+};
 
-pub fn gen(_rng: &mut Rng, _tier: Tier, _emit: &mut dyn FnMut(Case)) {}
+const KINDS: [Kind; 6] = [Kind::A, Kind::B, Kind::C, Kind::X, Kind::Y, Kind::Z];
 
-pub fn exec(_op: &str, _t: &mut Toks) -> Option<String> {
-    None
+#[derive(Clone)]
+struct Pep {
+    seq: Vec<u8>,
+    mods: Vec<f32>,
+    nterm: Option<f32>,
+    cterm: Option<f32>,
+    mono: f32,
+    decoy: bool,
+}
+
+impl Pep {
+    fn consistent(seq: &[u8], mods: Vec<f32>, nterm: Option<f32>, cterm: Option<f32>, decoy: bool) -> Pep {
+        let mut m = H2O;
+        for (i, &r) in seq.iter().enumerate() {
+            m += monoisotopic(r) + mods.get(i).copied().unwrap_or(0.0);
+        }
+        let mono = m + nterm.unwrap_or_default() + cterm.unwrap_or_default();
+        Pep { seq: seq.to_vec(), mods, nterm, cterm, mono, decoy }
+    }
+    fn plain(seq: &[u8], decoy: bool) -> Pep {
+        Pep::consistent(seq, vec![0.0; seq.len()], None, None, decoy)
+    }
+    fn write(&self, o: &mut Out) {
+        o.bytes(&self.seq).n(self.mods.len());
+        for &m in &self.mods {
+            o.f32(m);
+        }
+        for t in [self.nterm, self.cterm] {
+            match t {
+                None => {
+                    o.n(0);
+                }
+                Some(x) => {
+                    o.n(1).f32(x);
+                }
+            }
+        }
+        o.f32(self.mono).b(self.decoy);
+    }
+    fn read(t: &mut Toks) -> Option<Pep> {
+        let seq = t.bytes()?;
+        let mods = t.list(|t| t.f32())?;
+        let nterm = t.opt(|t| t.f32())?;
+        let cterm = t.opt(|t| t.f32())?;
+        let mono = t.f32()?;
+        let decoy = t.bool()?;
+        Some(Pep { seq, mods, nterm, cterm, mono, decoy })
+    }
+    fn peptide(&self) -> Peptide {
+        Peptide {
+            decoy: self.decoy,
+            sequence: Arc::from(self.seq.clone().into_boxed_slice()),
+            modifications: self.mods.clone(),
+            nterm: self.nterm,
+            cterm: self.cterm,
+            monoisotopic: self.mono,
+            missed_cleavages: 0,
+            semi_enzymatic: false,
+            position: Position::Internal,
+            proteins: vec![Arc::from("P1")],
+        }
+    }
+}
+
+#[derive(Clone, Copy)]
+enum Tol {
+    Ppm(f32, f32),
+    Da(f32, f32),
+}
+
+impl Tol {
+    fn write(&self, o: &mut Out) {
+        match *self {
+            Tol::Ppm(a, b) => o.n(0).f32(a).f32(b),
+            Tol::Da(a, b) => o.n(1).f32(a).f32(b),
+        };
+    }
+    fn read(t: &mut Toks) -> Option<Tolerance> {
+        let k = t.usize()?;
+        let a = t.f32()?;
+        let b = t.f32()?;
+        match k {
+            0 => Some(Tolerance::Ppm(a, b)),
+            1 => Some(Tolerance::Da(a, b)),
+            _ => None,
+        }
+    }
+    fn width(&self, center: f32) -> (f32, f32) {
+        match *self {
+            Tol::Ppm(a, b) => (center * a / 1_000_000.0, center * b / 1_000_000.0),
+            Tol::Da(a, b) => (a, b),
+        }
+    }
+}
+
+#[derive(Clone)]
+struct Req {
+    kinds: Vec<usize>,
+    min_ion_index: usize,
+    bucket: usize,
+    peps: Vec<Pep>,
+    ftol: Tol,
+    ptol: Tol,
+    mfc: Option<u8>,
+    iso: (i8, i8),
+    zr: (u8, u8),
+    override_charge: bool,
+    chimera: bool,
+    wide: bool,
+    report: usize,
+    min_matched: u16,
+    prec_mz: f32,
+    charge: Option<u8>,
+    isowin: Option<Tol>,
+    peaks: Vec<(f32, f32)>,
+}
+
+impl Req {
+    fn line(&self) -> String {
+        let mut o = Out::new();
+        o.raw("search").n(self.kinds.len());
+        for &k in &self.kinds {
+            o.n(k);
+        }
+        o.n(self.min_ion_index).n(self.bucket).n(self.peps.len());
+        for p in &self.peps {
+            p.write(&mut o);
+        }
+        self.ftol.write(&mut o);
+        self.ptol.write(&mut o);
+        match self.mfc {
+            None => {
+                o.n(0);
+            }
+            Some(c) => {
+                o.n(1).n(c);
+            }
+        }
+        o.n(self.iso.0).n(self.iso.1).n(self.zr.0).n(self.zr.1);
+        o.b(self.override_charge).b(self.chimera).b(self.wide).n(self.report).n(self.min_matched);
+        o.f32(self.prec_mz);
+        match self.charge {
+            None => {
+                o.n(0);
+            }
+            Some(c) => {
+                o.n(1).n(c);
+            }
+        }
+        match self.isowin {
+            None => {
+                o.n(0);
+            }
+            Some(t) => {
+                o.n(1);
+                t.write(&mut o);
+            }
+        }
+        o.n(self.peaks.len());
+        for &(m, i) in &self.peaks {
+            o.f32(m).f32(i);
+        }
+        o.finish()
+    }
+}
+
+// ------------------------------------------------------------------------------------------ real code
+
+fn run_search(t: &mut Toks) -> Option<Vec<Feature>> {
+    let kinds = t.list(|t| t.usize())?;
+    let min_ion_index = t.usize()?;
+    let bucket_size = t.usize()?;
+    let peps = t.list(Pep::read)?;
+    let ftol = Tol::read(t)?;
+    let ptol = Tol::read(t)?;
+    let mfc = t.opt(|t| t.usize())?.map(|c| c as u8);
+    let iso_lo = t.i64()? as i8;
+    let iso_hi = t.i64()? as i8;
+    let z_lo = t.usize()? as u8;
+    let z_hi = t.usize()? as u8;
+    let override_precursor_charge = t.bool()?;
+    let chimera = t.bool()?;
+    let wide_window = t.bool()?;
+    let report_psms = t.usize()?;
+    let min_matched = t.usize()? as u16;
+    let prec_mz = t.f32()?;
+    let charge = t.opt(|t| t.usize())?.map(|c| c as u8);
+    let isolation_window = t.opt(Tol::read)?;
+    let peaks: Vec<Peak> = t.list(|t| {
+        let mass = t.f32()?;
+        let intensity = t.f32()?;
+        Some(Peak { mass, intensity })
+    })?;
+    if !t.done() || bucket_size == 0 {
+        return None;
+    }
+    let ion_kinds: Vec<Kind> = kinds.iter().map(|&k| KINDS.get(k).copied()).collect::<Option<Vec<_>>>()?;
+    let params = Parameters {
+        bucket_size,
+        enzyme: EnzymeBuilder::default(),
+        peptide_min_mass: 0.0,
+        peptide_max_mass: 1.0e9,
+        ion_kinds,
+        min_ion_index,
+        static_mods: Default::default(),
+        variable_mods: Default::default(),
+        max_variable_mods: 2,
+        decoy_tag: "rev_".into(),
+        generate_decoys: false,
+        fasta: String::new(),
+        prefilter_chunk_size: 0,
+        prefilter: false,
+        prefilter_low_memory: true,
+    };
+    let db = params.build_from_peptides(peps.iter().map(|p| p.peptide()).collect());
+    let scorer = Scorer {
+        db: &db,
+        precursor_tol: ptol,
+        fragment_tol: ftol,
+        min_matched_peaks: min_matched,
+        min_isotope_err: iso_lo,
+        max_isotope_err: iso_hi,
+        min_precursor_charge: z_lo,
+        max_precursor_charge: z_hi,
+        override_precursor_charge,
+        max_fragment_charge: mfc,
+        chimera,
+        report_psms,
+        wide_window,
+        annotate_matches: false,
+        score_type: ScoreType::SageHyperScore,
+    };
+    let tic = peaks.iter().map(|p| p.intensity).sum::<f32>();
+    let spectrum = ProcessedSpectrum {
+        level: 2,
+        id: "s".into(),
+        file_id: 0,
+        scan_start_time: 1.0,
+        ion_injection_time: 0.0,
+        precursors: vec![Precursor {
+            mz: prec_mz,
+            intensity: None,
+            charge,
+            spectrum_ref: None,
+            isolation_window,
+            inverse_ion_mobility: None,
+        }],
+        peaks,
+        total_ion_current: tic,
+    };
+    Some(scorer.score(&spectrum))
+}
+
+fn canon32(x: f32) -> u32 {
+    if x.is_nan() {
+        0x7FC0_0000
+    } else {
+        x.to_bits()
+    }
+}
+fn canon64(x: f64) -> u64 {
+    if x.is_nan() {
+        0x7FF8_0000_0000_0000
+    } else {
+        x.to_bits()
+    }
+}
+
+pub fn exec(op: &str, t: &mut Toks) -> Option<String> {
+    match op {
+        "search" => {
+            let feats = run_search(t)?;
+            let mut o = Out::new();
+            o.n(feats.len());
+            for f in &feats {
+                o.n(f.peptide_idx.0).n(f.charge).n(f.rank).n(canon32(f.isotope_error));
+                o.n(f.matched_peaks).n(f.scored_candidates);
+                o.n(canon64(f.hyperscore)).n(canon64(f.delta_next)).n(canon64(f.delta_best)).n(f.label);
+            }
+            Some(o.finish())
+        }
+        _ => None,
+    }
+}
+
+// ------------------------------------------------------------------------------------------ generator
+
+const MOD_DELTAS: [f32; 4] = [15.9949, 57.0215, 79.9663, 42.0106];
+const INTENSITIES: [f32; 4] = [1.0, 2.5, 10.0, 100.0];
+const COMMON_AA: &[u8] = b"ACDEFGHIKLMNPQRSTVWY";
+
+fn random_pep(rng: &mut Rng) -> Pep {
+    let len = match rng.below(10) {
+        0 => 3,
+        1 => 4,
+        _ => 5 + rng.below(12),
+    };
+    let seq: Vec<u8> =
+        (0..len).map(|_| if rng.chance(1, 20) { *rng.pick(&VALID_AA) } else { *rng.pick(COMMON_AA) }).collect();
+    let rate = *rng.pick(&[0u32, 0, 0, 15]);
+    let mods: Vec<f32> =
+        (0..len).map(|_| if rng.chance(rate, 100) { *rng.pick(&MOD_DELTAS) } else { 0.0 }).collect();
+    let term = |rng: &mut Rng| if rng.chance(1, 10) { Some(*rng.pick(&MOD_DELTAS)) } else { None };
+    let nterm = term(rng);
+    let cterm = term(rng);
+    Pep::consistent(&seq, mods, nterm, cterm, rng.chance(1, 3))
+}
+
+fn small_db(rng: &mut Rng, tags: &mut Vec<&'static str>) -> Vec<Pep> {
+    let n = *rng.pick(&[1usize, 2, 3, 4, 6, 8, 12]);
+    let mut peps: Vec<Pep> = (0..n).map(|_| random_pep(rng)).collect();
+    if n > 1 && rng.chance(1, 3) {
+        let mut s = peps[0].seq.clone();
+        rng.shuffle(&mut s);
+        peps[1] = Pep::plain(&s, rng.chance(1, 2));
+        tags.push("isobaric-pair");
+    }
+    if n > 2 && rng.chance(1, 4) {
+        // I/L twin: identical mass and fragments
+        let s: Vec<u8> = peps[0].seq.iter().map(|&c| if c == b'L' { b'I' } else if c == b'I' { b'L' } else { c }).collect();
+        let mut p = peps[0].clone();
+        p.seq = s;
+        p.decoy = !p.decoy;
+        peps[2] = p;
+        tags.push("il-twin");
+    }
+    peps.sort_by(|a, b| a.mono.total_cmp(&b.mono));
+    peps
+}
+
+/// near-isobaric database: prefix + permuted middle + suffix (+ I/L twins)
+fn big_db(rng: &mut Rng, n: usize) -> Vec<Pep> {
+    let pre: Vec<u8> = (0..1 + rng.below(3)).map(|_| *rng.pick(b"AGSTV")).collect();
+    let suf: Vec<u8> = vec![*rng.pick(b"DEN"), *rng.pick(b"KR")];
+    let pool = b"ACDEFGHLMNPQSTVWY";
+    let mlen = 5 + rng.below(3);
+    let mut mid: Vec<u8> = Vec::new();
+    while mid.len() < mlen {
+        let c = *rng.pick(pool);
+        if !mid.contains(&c) || rng.chance(1, 6) {
+            mid.push(c);
+        }
+    }
+    if !mid.contains(&b'L') {
+        mid[0] = b'L';
+    }
+    let mut seen: std::collections::HashSet<Vec<u8>> = Default::default();
+    let mut out = Vec::new();
+    let mut guard = 0;
+    while out.len() < n && guard < n * 50 {
+        guard += 1;
+        let mut m = mid.clone();
+        rng.shuffle(&mut m);
+        if rng.chance(1, 8) {
+            for c in m.iter_mut() {
+                if *c == b'L' {
+                    *c = b'I';
+                }
+            }
+        }
+        let mut s = pre.clone();
+        s.extend_from_slice(&m);
+        s.extend_from_slice(&suf);
+        if seen.insert(s.clone()) {
+            out.push(Pep::plain(&s, rng.chance(1, 2)));
+        }
+    }
+    out.sort_by(|a, b| a.mono.total_cmp(&b.mono));
+    out
+}
+
+struct Plan {
+    kinds: Vec<usize>,
+    ftol: Tol,
+    mfc: Option<u8>,
+}
+
+/// ladder peaks of peptide `p` (kinds of the plan + a few unconfigured ones), fragment charges 1..3
+fn ladder(rng: &mut Rng, p: &Pep, plan: &Plan, keep: u32, top_charge: u8, inten: Option<f32>, peaks: &mut Vec<(f32, f32)>) {
+    let pt = p.peptide();
+    for (ki, kind) in KINDS.iter().enumerate() {
+        let configured = plan.kinds.contains(&ki);
+        if !configured && !rng.chance(1, 6) {
+            continue;
+        }
+        for ion in IonSeries::new(&pt, *kind) {
+            if !rng.chance(keep, 100) {
+                continue;
+            }
+            let c: u8 = if rng.chance(3, 4) { 1 } else { 1 + rng.below(top_charge.max(2) as usize - 1).min(2) as u8 };
+            let mz = ion.monoisotopic_mass / c as f32;
+            let (wlo, whi) = plan.ftol.width(mz);
+            let frac = *rng.pick(&[0.0f32, 0.0, 0.0, 0.5, -0.5, 0.9, -0.9, 1.1, -1.1, 2.0, -2.0]);
+            let w = if frac >= 0.0 { whi } else { -wlo };
+            let mass = mz + frac * w;
+            let i = match inten {
+                Some(x) => x,
+                None => {
+                    if rng.chance(1, 3) {
+                        1.0 + (rng.unit() * 999.0) as f32
+                    } else {
+                        *rng.pick(&INTENSITIES)
+                    }
+                }
+            };
+            peaks.push((mass, i));
+        }
+    }
+}
+
+fn finish_peaks(peaks: &mut Vec<(f32, f32)>) {
+    peaks.retain(|p| p.0.is_finite() && p.0 > 0.0);
+    peaks.sort_by(|a, b| a.0.total_cmp(&b.0).then(a.1.total_cmp(&b.1)));
+}
+
+fn random_req(rng: &mut Rng, big: bool) -> (Req, Vec<&'static str>) {
+    let mut tags: Vec<&'static str> = vec![];
+    let peps = if big {
+        tags.push("big-db");
+        let n = *rng.pick(&[60usize, 120, 120, 150, 220]);
+        big_db(rng, n)
+    } else {
+        tags.push("small-db");
+        small_db(rng, &mut tags)
+    };
+    let kinds: Vec<usize> = if rng.chance(4, 5) { vec![1, 4] } else { rng.pick(&[&[1usize][..], &[4], &[2, 5], &[0, 1, 4], &[0, 1, 2, 3, 4, 5]]).to_vec() };
+    let ftol = match rng.below(5) {
+        0 => Tol::Ppm(-10.0, 10.0),
+        1 => Tol::Ppm(-20.0, 20.0),
+        2 => Tol::Ppm(-5.0, 15.0),
+        3 => Tol::Da(-0.02, 0.02),
+        _ => Tol::Da(-0.5, 0.5),
+    };
+    tags.push(match ftol {
+        Tol::Ppm(..) => "ftol-ppm",
+        Tol::Da(..) => "ftol-da",
+    });
+    let mfc = *rng.pick(&[None, None, Some(1u8), Some(2), Some(3)]);
+    let plan = Plan { kinds: kinds.clone(), ftol, mfc };
+    let iso = *rng.pick(&[(0i8, 0i8), (0, 0), (-1, 3), (0, 1), (1, 1), (-1, 0), (2, 0)]);
+    if iso.0 != iso.1 {
+        tags.push("isotope-range");
+    }
+    let zr = *rng.pick(&[(2u8, 4u8), (2, 4), (2, 3), (1, 4), (3, 3), (4, 2)]);
+    let wide = rng.chance(1, 6);
+    let override_charge = rng.chance(1, 6);
+    let chimera = rng.chance(1, 3);
+    let report = if big { *rng.pick(&[1usize, 2, 3, 5, 5, 26, 30]) } else { *rng.pick(&[0usize, 1, 1, 2, 3, 4, 5]) };
+    let min_matched = *rng.pick(&[0u16, 1, 2, 2, 2, 4, 4, 6]);
+    let z_true = if wide || override_charge || rng.chance(1, 2) { 2 + rng.below(3) as u8 } else { 1 + rng.below(4) as u8 };
+    let charge = if rng.chance(2, 3) { Some(z_true) } else { None };
+    tags.push(if charge.is_some() { "charge-annotated" } else { "charge-absent" });
+    let open = rng.chance(1, 2);
+    let ptol = if open {
+        tags.push("ptol-open");
+        *rng.pick(&[Tol::Da(-50.0, 50.0), Tol::Da(-500.0, 500.0), Tol::Da(-6000.0, 6000.0), Tol::Da(-150.0, 500.0)])
+    } else {
+        tags.push("ptol-narrow");
+        *rng.pick(&[Tol::Ppm(-10.0, 10.0), Tol::Ppm(-50.0, 50.0), Tol::Da(-0.3, 0.3)])
+    };
+    let isowin = if rng.chance(1, 2) {
+        Some(*rng.pick(&[Tol::Da(-2.4, 2.4), Tol::Da(-10.0, 10.0), Tol::Da(-0.6, 0.6), Tol::Ppm(-2000.0, 2000.0)]))
+    } else {
+        None
+    };
+    // spectrum from 1..3 ladders
+    let mut peaks = vec![];
+    let (tp_mono, nl) = if peps.is_empty() {
+        (800.0f32, 0)
+    } else {
+        let nl = 1 + rng.below(3);
+        let first = rng.below(peps.len());
+        for l in 0..nl {
+            let ix = if l == 0 { first } else { rng.below(peps.len()) };
+            let keep = if l == 0 { *rng.pick(&[60u32, 90, 100]) } else { *rng.pick(&[30u32, 60, 90, 100]) };
+            ladder(rng, &peps[ix], &plan, keep, z_true, None, &mut peaks);
+        }
+        (peps[first].mono, nl)
+    };
+    tags.push(match nl {
+        0 => "ladders-0",
+        1 => "ladders-1",
+        2 => "ladders-2",
+        _ => "ladders-3",
+    });
+    let noise = *rng.pick(&[0usize, 0, 5, 15, 40]);
+    for _ in 0..noise {
+        peaks.push(((rng.unit() * tp_mono as f64 * 1.1) as f32 + 50.0, 1.0 + (rng.unit() * 49.0) as f32));
+    }
+    finish_peaks(&mut peaks);
+    let true_iso: i8 = if iso.0 < iso.1 {
+        if rng.chance(1, 12) {
+            iso.1 + 1
+        } else {
+            iso.0 + rng.below((iso.1 - iso.0 + 1) as usize) as i8
+        }
+    } else if rng.chance(1, 14) {
+        1
+    } else {
+        0
+    };
+    let ppm_err = (rng.unit() as f32 - 0.5) * *rng.pick(&[4.0f32, 4.0, 16.0, 30.0]);
+    let mut prec_mass = (tp_mono + true_iso as f32 * NEUTRON) * (1.0 + ppm_err / 1.0e6);
+    if wide && rng.chance(1, 2) {
+        // inside the isolation window scaled by the charge, outside the unscaled one (z >= 2), or just outside both
+        let w = match isowin {
+            Some(Tol::Da(_, hi)) => hi,
+            Some(Tol::Ppm(_, hi)) => prec_mass * hi / 1.0e6,
+            None => 2.4,
+        };
+        let f = *rng.pick(&[1.5f32, -1.5, 0.98 * z_true as f32, -0.98 * z_true as f32, 1.02 * z_true as f32]);
+        prec_mass += f * w;
+        tags.push("wide-window-edge");
+    }
+    let prec_mz = prec_mass / z_true as f32 + PROTON;
+    if wide {
+        tags.push("wide-window");
+    }
+    if chimera {
+        tags.push("chimera");
+    }
+    if override_charge {
+        tags.push("override-charge");
+    }
+    let req = Req {
+        kinds,
+        min_ion_index: if big { rng.below(2) } else { *rng.pick(&[0usize, 0, 1, 2, 2]) },
+        bucket: *rng.pick(&[1usize, 3, 64, 8192, 8192]),
+        peps,
+        ftol,
+        ptol,
+        mfc,
+        iso,
+        zr,
+        override_charge,
+        chimera,
+        wide,
+        report,
+        min_matched,
+        prec_mz,
+        charge,
+        isowin,
+        peaks,
+    };
+    (req, tags)
+}
+
+/// `n` near-isobaric peptides all sharing fragments with the spectrum: exactly `n` scored candidates
+fn boundary_req(rng: &mut Rng, n: usize, report: usize, chimera: bool) -> Req {
+    let peps = big_db(rng, n);
+    let plan = Plan { kinds: vec![1, 4], ftol: Tol::Da(-0.02, 0.02), mfc: None };
+    let mut peaks = vec![];
+    let a = rng.below(peps.len());
+    let b = rng.below(peps.len());
+    ladder(rng, &peps[a], &plan, 100, 2, None, &mut peaks);
+    ladder(rng, &peps[b], &plan, 60, 2, None, &mut peaks);
+    finish_peaks(&mut peaks);
+    Req {
+        kinds: vec![1, 4],
+        min_ion_index: 0,
+        bucket: 8192,
+        prec_mz: peps[a].mono / 2.0 + PROTON,
+        peps,
+        ftol: plan.ftol,
+        ptol: Tol::Da(-5.0, 5.0),
+        mfc: None,
+        iso: (0, 0),
+        zr: (2, 4),
+        override_charge: false,
+        chimera,
+        wide: false,
+        report,
+        min_matched: 2,
+        charge: Some(2),
+        isowin: None,
+        peaks,
+    }
+}
+
+/// permutations of one multiset of distinct residues (no common prefix / suffix): b1, b2, y1, y2 differ
+fn perm_db(rng: &mut Rng, n: usize) -> Vec<Pep> {
+    let pool = b"AGSPVTCLNDEMHFRYW";
+    let mut base: Vec<u8> = Vec::new();
+    while base.len() < 8 {
+        let c = *rng.pick(pool);
+        if !base.contains(&c) {
+            base.push(c);
+        }
+    }
+    let mut seen: std::collections::HashSet<Vec<u8>> = Default::default();
+    let mut out = Vec::new();
+    while out.len() < n {
+        let mut m = base.clone();
+        rng.shuffle(&mut m);
+        if seen.insert(m.clone()) {
+            out.push(Pep::plain(&m, rng.chance(1, 2)));
+        }
+    }
+    out.sort_by(|a, b| a.mono.total_cmp(&b.mono));
+    out
+}
+
+/// the fragments `build_from_peptides` stores for one peptide
+fn index_frags(p: &Pep, kinds: &[usize], min_ion_index: usize) -> Vec<f32> {
+    let pt = p.peptide();
+    let mut v = vec![];
+    for &k in kinds {
+        for (j, ion) in IonSeries::new(&pt, KINDS[k]).enumerate() {
+            let keep = if k < 3 { j + 1 > min_ion_index } else { p.seq.len().saturating_sub(1) - j > min_ion_index };
+            if keep {
+                v.push(ion.monoisotopic_mass);
+            }
+        }
+    }
+    v
+}
+
+/// preliminary match count of one peptide by linear scan (generator-side, only used to PLACE a candidate at the
+/// trimming boundary; the verdicts come from the Lean side)
+fn prelim_count(frags: &[f32], peaks: &[(f32, f32)], ftol: Tol, top_charge_excl: u8) -> usize {
+    let mut n = 0;
+    for &(m, _) in peaks {
+        for c in 1..top_charge_excl {
+            let mass = m * c as f32;
+            let tol = match ftol {
+                Tol::Ppm(lo, hi) => Tolerance::Ppm(lo / c as f32, hi / c as f32),
+                Tol::Da(lo, hi) => Tolerance::Da(lo, hi),
+            };
+            let (lo, hi) = tol.bounds(mass);
+            n += frags.iter().filter(|&&f| f >= lo && f <= hi).count();
+        }
+    }
+    n
+}
+
+/// a candidate planted exactly at the trimming boundary: the candidate that is `pos` places from the top in the
+/// derived `PreScore` order (count, then peptide index) gets four very intense peaks on its b1, b2, y1, y2 ions —
+/// not indexed with min_ion_index = 2, so no preliminary count changes — which make it the best full score.
+/// `pos = K - 1`: last retained (must be reported first); `pos = K`: first dropped (must NOT be reported).
+fn critical_req(rng: &mut Rng, n: usize, report: usize, offset: usize, chimera: bool, strictify: bool) -> Option<(Req, bool, usize)> {
+    let mut peps = perm_db(rng, n);
+    let ftol = *rng.pick(&[Tol::Da(-0.3, 0.3), Tol::Da(-0.25, 0.3), Tol::Ppm(-400.0, 400.0)]);
+    let kinds = vec![1usize, 4];
+    let plan = Plan { kinds: kinds.clone(), ftol, mfc: None };
+    let mut peaks = vec![];
+    let a = rng.below(peps.len());
+    let b = rng.below(peps.len());
+    ladder(rng, &peps[a], &plan, 80, 2, None, &mut peaks);
+    ladder(rng, &peps[b], &plan, 50, 2, None, &mut peaks);
+    let top = peps[peps.len() - 1].mono;
+    for _ in 0..(120 + rng.below(120)) {
+        peaks.push(((rng.unit() * top as f64) as f32 + 150.0, 1.0 + (rng.unit() * 20.0) as f32));
+    }
+    finish_peaks(&mut peaks);
+    let k = 50usize.max(2 * report);
+    let order = |peps: &Vec<Pep>, peaks: &Vec<(f32, f32)>| -> Vec<(usize, usize)> {
+        let mut v: Vec<(usize, usize)> = peps
+            .iter()
+            .enumerate()
+            .map(|(i, p)| (prelim_count(&index_frags(p, &kinds, 2), peaks, ftol, 2), i))
+            .filter(|x| x.0 > 0)
+            .collect();
+        v.sort_by(|x, y| y.cmp(x));
+        v
+    };
+    if strictify {
+        // thin the database so that EXACTLY k candidates have a count >= c and all others a count < c
+        let all = order(&peps, &peaks);
+        if all.len() <= k + 1 {
+            return None;
+        }
+        let c = all[k - 1].0;
+        let g: Vec<usize> = all.iter().filter(|x| x.0 > c).map(|x| x.1).collect();
+        let mut e: Vec<usize> = all.iter().filter(|x| x.0 == c).map(|x| x.1).collect();
+        rng.shuffle(&mut e);
+        e.truncate(k - g.len());
+        let keep: std::collections::HashSet<usize> = g.iter().chain(e.iter()).copied().collect();
+        let thinned: Vec<Pep> = peps
+            .iter()
+            .enumerate()
+            .filter(|(i, p)| keep.contains(i) || prelim_count(&index_frags(p, &kinds, 2), &peaks, ftol, 2) < c)
+            .map(|(_, p)| p.clone())
+            .collect();
+        peps = thinned;
+    }
+    let before = order(&peps, &peaks);
+    let pos = k - 1 + offset;
+    if before.len() <= k {
+        return None;
+    }
+    let x = before[pos].1;
+    let pt = peps[x].peptide();
+    let bs: Vec<f32> = IonSeries::new(&pt, Kind::B).map(|i| i.monoisotopic_mass).collect();
+    let ys: Vec<f32> = IonSeries::new(&pt, Kind::Y).map(|i| i.monoisotopic_mass).collect();
+    peaks.push((bs[0], 1.0e5));
+    peaks.push((bs[1], 1.0e7));
+    peaks.push((ys[ys.len() - 1], 1.0e5));
+    peaks.push((ys[ys.len() - 2], 1.0e7));
+    finish_peaks(&mut peaks);
+    let after = order(&peps, &peaks);
+    if after.len() <= k || after[pos].1 != x {
+        return None;
+    }
+    // strict: no tie in the count across the boundary
+    let strict = after[k - 1].0 > after[k].0;
+    if strictify && !strict {
+        return None;
+    }
+    let req = Req {
+        kinds,
+        min_ion_index: 2,
+        bucket: *rng.pick(&[16usize, 8192]),
+        prec_mz: peps[x].mono / 2.0 + PROTON,
+        peps,
+        ftol,
+        ptol: Tol::Da(-5.0, 5.0),
+        mfc: None,
+        iso: (0, 0),
+        zr: (2, 4),
+        override_charge: false,
+        chimera,
+        wide: false,
+        report,
+        min_matched: 2,
+        charge: Some(2),
+        isowin: None,
+        peaks,
+    };
+    Some((req, strict, x))
+}
+
+/// one peptide, one b and one y peak of intensity 0.01: hyperscore < 0 (the known delta_next defect)
+fn negative_req(rng: &mut Rng) -> Req {
+    let p = loop {
+        let p = random_pep(rng);
+        if p.seq.len() >= 6 {
+            break p;
+        }
+    };
+    let pt = p.peptide();
+    let b: Vec<f32> = IonSeries::new(&pt, Kind::B).map(|i| i.monoisotopic_mass).collect();
+    let y: Vec<f32> = IonSeries::new(&pt, Kind::Y).map(|i| i.monoisotopic_mass).collect();
+    let mut peaks = vec![(b[2 + rng.below(b.len() - 3)], 0.01f32), (y[2 + rng.below(y.len() - 3)], 0.01f32)];
+    finish_peaks(&mut peaks);
+    let mut others: Vec<Pep> = (0..rng.below(3)).map(|_| random_pep(rng)).collect();
+    others.push(p.clone());
+    others.sort_by(|a, b| a.mono.total_cmp(&b.mono));
+    Req {
+        kinds: vec![1, 4],
+        min_ion_index: 0,
+        bucket: 8192,
+        prec_mz: p.mono / 2.0 + PROTON,
+        peps: others,
+        ftol: Tol::Ppm(-10.0, 10.0),
+        ptol: Tol::Ppm(-20.0, 20.0),
+        mfc: None,
+        iso: (0, 0),
+        zr: (2, 4),
+        override_charge: false,
+        chimera: rng.chance(1, 3),
+        wide: false,
+        report: 1 + rng.below(3),
+        min_matched: 2,
+        charge: Some(2),
+        isowin: None,
+        peaks,
+    }
+}
+
+fn emit_req(emit: &mut dyn FnMut(Case), req: &Req, tags: &[&'static str]) {
+    emit_req_planted(emit, req, tags, None)
+}
+
+fn emit_req_planted(emit: &mut dyn FnMut(Case), req: &Req, tags: &[&'static str], planted: Option<usize>) {
+    let line = req.line();
+    // classify by what the real code does with it
+    let mut c = Case::new(line.clone());
+    for t in tags {
+        c = c.tag(t);
+    }
+    let reply = {
+        let l = line.clone();
+        std::panic::catch_unwind(move || {
+            let mut t = Toks::new(&l);
+            t.tok();
+            run_search(&mut t)
+        })
+    };
+    let mut nontrivial = false;
+    match reply {
+        Ok(Some(feats)) => {
+            c = c.tag(match feats.len() {
+                0 => "psms-0",
+                1 => "psms-1",
+                _ => "psms-2+",
+            });
+            if let Some(f) = feats.first() {
+                let sc = f.scored_candidates as usize;
+                nontrivial = sc > feats.len();
+                c = c.tag_if(sc > 50, "scored>50:trim-cuts");
+                c = c.tag_if(sc > 50 && sc > 2 * req.report && 2 * req.report > 50, "k=2r");
+                c = c.tag_if(feats.len() == req.report, "report-full");
+                c = c.tag_if(feats.iter().any(|f| f.hyperscore < 0.0), "hyperscore<0");
+                c = c.tag_if(feats.iter().any(|f| f.peptide_idx.0 == 0), "reports-peptide-0");
+                c = c.tag_if(feats.windows(2).any(|w| w[0].hyperscore == w[1].hyperscore), "hyperscore-tie");
+                c = c.tag_if(feats.iter().any(|f| f.isotope_error != 0.0), "isotope-nonzero-reported");
+                if let Some(x) = planted {
+                    c = c.tag(if f.peptide_idx.0 as usize == x { "planted-reported-first" } else { "planted-not-first" });
+                }
+            }
+        }
+        Ok(None) => {
+            c = c.tag("bad-request");
+        }
+        Err(_) => {
+            c = c.tag("impl-panic");
+        }
+    }
+    emit(c.nontrivial(nontrivial));
+}
+
+pub fn gen(rng: &mut Rng, tier: Tier, emit: &mut dyn FnMut(Case)) {
+    let quick = tier == Tier::Quick;
+    // ---- directed ----
+    {
+        // 0- and 1-peptide databases, the lightest peptide as the answer, empty spectrum
+        let p = Pep::plain(b"PEPTIDEK", false);
+        let q = Pep::plain(b"LGEYGFQNALIVR", true);
+        let plan = Plan { kinds: vec![1, 4], ftol: Tol::Ppm(-10.0, 10.0), mfc: None };
+        for (peps, tag) in [(vec![], "db-empty"), (vec![p.clone()], "db-single"), (vec![p.clone(), q.clone()], "db-two")] {
+            for chimera in [false, true] {
+                let mut peaks = vec![];
+                ladder(rng, &p, &plan, 100, 2, Some(10.0), &mut peaks);
+                finish_peaks(&mut peaks);
+                let r = Req {
+                    kinds: vec![1, 4],
+                    min_ion_index: 2,
+                    bucket: 8192,
+                    peps: peps.clone(),
+                    ftol: plan.ftol,
+                    ptol: Tol::Ppm(-20.0, 20.0),
+                    mfc: None,
+                    iso: (0, 0),
+                    zr: (2, 4),
+                    override_charge: false,
+                    chimera,
+                    wide: false,
+                    report: 2,
+                    min_matched: 4,
+                    prec_mz: p.mono / 2.0 + PROTON,
+                    charge: Some(2),
+                    isowin: None,
+                    peaks: peaks.clone(),
+                };
+                emit_req(emit, &r, &["directed", tag]);
+                let mut e = r.clone();
+                e.peaks.clear();
+                emit_req(emit, &e, &["directed", "empty-spectrum"]);
+                let mut e = r.clone();
+                e.charge = None;
+                e.zr = (4, 2);
+                emit_req(emit, &e, &["directed", "empty-charge-range"]);
+                let mut e = r.clone();
+                e.iso = (2, 0);
+                emit_req(emit, &e, &["directed", "inverted-isotope-range"]);
+                let mut e = r.clone();
+                e.report = 0;
+                emit_req(emit, &e, &["directed", "report-0"]);
+            }
+        }
+        // k = max(50, 2r) boundary
+        let ns: &[usize] = if quick { &[49, 50, 51, 52, 101] } else { &[1, 2, 49, 50, 51, 52, 53, 60, 100, 101, 150] };
+        for &n in ns {
+            for &report in &[1usize, 25, 26, 30] {
+                for chimera in [false, true] {
+                    if quick && chimera && report != 1 {
+                        continue;
+                    }
+                    let r = boundary_req(rng, n, report, chimera);
+                    emit_req(emit, &r, &["directed", "trim-boundary"]);
+                }
+            }
+        }
+    }
+    // ---- a candidate planted exactly on the trimming boundary (last retained / first dropped) ----
+    {
+        let want = if quick { 40 } else { 1500 };
+        let mut made = 0;
+        let mut tries = 0;
+        while made < want && tries < want * 20 {
+            tries += 1;
+            let report = *rng.pick(&[1usize, 1, 2, 5, 26, 30]);
+            let offset = rng.below(2);
+            let n = *rng.pick(&[120usize, 160, 200]);
+            let chim = rng.chance(1, 4);
+            let strictify = rng.chance(2, 3);
+            if let Some((r, strict, x)) = critical_req(rng, n, report, offset, chim, strictify) {
+                made += 1;
+                emit_req_planted(
+                    emit,
+                    &r,
+                    &[
+                        "directed",
+                        if offset == 0 { "planted-last-retained" } else { "planted-first-dropped" },
+                        if strict { "boundary-strict" } else { "boundary-count-tie" },
+                    ],
+                    Some(x),
+                );
+            }
+        }
+    }
+    // ---- every level of trimming at work: all charges x all isotopes x a large open-search candidate set ----
+    for _ in 0..(if quick { 12 } else { 300 }) {
+        let (mut r, mut tags) = random_req(rng, true);
+        r.charge = None;
+        r.zr = *rng.pick(&[(2u8, 4u8), (1, 4), (2, 3)]);
+        r.ptol = Tol::Da(-6000.0, 6000.0);
+        r.iso = *rng.pick(&[(-1i8, 3i8), (0, 1), (-1, 0)]);
+        r.wide = false;
+        r.min_matched = *rng.pick(&[1u16, 2, 4]);
+        tags.retain(|t| !["charge-annotated", "ptol-narrow", "wide-window", "wide-window-edge"].contains(t));
+        tags.push("directed");
+        tags.push("multi-window-trim");
+        emit_req(emit, &r, &tags);
+    }
+    // ---- known defect stream ----
+    {
+        // minimal witness: PEPTIDEK alone, b3 and y3 at intensity 0.01
+        let p = Pep::plain(b"PEPTIDEK", false);
+        let pt = p.peptide();
+        let b: Vec<f32> = IonSeries::new(&pt, Kind::B).map(|i| i.monoisotopic_mass).collect();
+        let y: Vec<f32> = IonSeries::new(&pt, Kind::Y).map(|i| i.monoisotopic_mass).collect();
+        let mut peaks = vec![(b[2], 0.01f32), (y[4], 0.01f32)];
+        finish_peaks(&mut peaks);
+        let r = Req {
+            kinds: vec![1, 4],
+            min_ion_index: 0,
+            bucket: 8192,
+            prec_mz: p.mono / 2.0 + PROTON,
+            peps: vec![p],
+            ftol: Tol::Ppm(-10.0, 10.0),
+            ptol: Tol::Ppm(-20.0, 20.0),
+            mfc: None,
+            iso: (0, 0),
+            zr: (2, 4),
+            override_charge: false,
+            chimera: false,
+            wide: false,
+            report: 1,
+            min_matched: 2,
+            charge: Some(2),
+            isowin: None,
+            peaks,
+        };
+        emit_req(emit, &r, &["negative-hyperscore", "directed"]);
+    }
+    for _ in 0..(if quick { 6 } else { 60 }) {
+        let r = negative_req(rng);
+        emit_req(emit, &r, &["negative-hyperscore"]);
+    }
+    // ---- random ----
+    let (n_small, n_big) = if quick { (500, 40) } else { (40000, 2500) };
+    for _ in 0..n_small {
+        let (r, mut tags) = random_req(rng, false);
+        tags.push("random");
+        emit_req(emit, &r, &tags);
+    }
+    for _ in 0..n_big {
+        let (r, mut tags) = random_req(rng, true);
+        tags.push("random");
+        emit_req(emit, &r, &tags);
+    }
 }
